@@ -24,7 +24,12 @@ oracle: independent of the model — every record on the 'scrapli' logger tree a
         repr() / str() of the DRIVER are taken at every `repr` op and at the end of every scenario (family topts: drivers
         built with the transport_options kwarg for every transport that reads it, looked at before open(), after a
         successful / failed open() and after close(), the user's own option dict included) and are model cases too
-        (OpRepr / OpStr of the configuration given at construction: what the driver shows may not depend on its history)."""
+        (OpRepr / OpStr of the configuration given at construction: what the driver shows may not depend on its history).
+        Family rotate: the user REASSIGNS auth_password / auth_private_key_passphrase / auth_secondary / auth_username of an
+        existing driver (ops `set_attr`, `reconnect`) before the first open, after a refused open, between two opens, between
+        open and acquire_priv; each assignment is a model case (OpAssign: a credential store makes nothing observable), the
+        operations after it are model cases with the values the driver holds at that point.  Family shape: send_interactive with
+        hidden events of unusual shapes (accepted ones are model cases, the rejected ones are oracle-only)."""
 import asyncio
 import copy
 import io
@@ -392,9 +397,15 @@ def instrument(d, stack, events, block):
 
     def wrap(obj, name, label, kind):
         fn = getattr(obj, name)
+        def begin(a, kw):
+            events.append((kind + "_begin", label, a, kw))
+            if label == "_escalate":
+                # the enable secret the driver holds NOW (it may have been reassigned since construction)
+                events.append(("attr_now", "auth_secondary", str(getattr(d, "auth_secondary", ""))))
+
         if is_async and asyncio.iscoroutinefunction(fn):
             async def w(*a, **kw):
-                events.append((kind + "_begin", label, a, kw))
+                begin(a, kw)
                 try:
                     r = await fn(*a, **kw)
                 except BaseException as e:
@@ -404,7 +415,7 @@ def instrument(d, stack, events, block):
                 return r
         else:
             def w(*a, **kw):
-                events.append((kind + "_begin", label, a, kw))
+                begin(a, kw)
                 try:
                     r = fn(*a, **kw)
                 except BaseException as e:
@@ -483,6 +494,7 @@ def run_scenario(sc, workdir):
 
     dev, inner = make_device(sc)
     dev.start()
+    devices = [(dev, inner)]       # one per connection (op `reconnect`: the next open() reaches a fresh session)
     # the kwargs are the USER's objects: a deep copy of the scenario's (what scrapli does to them must not change the
     # scenario that goes into a replay file); the transport_options dict handed to the driver is kept to be looked at
     kw = copy.deepcopy(dict(sc.get("driver_kwargs", {})))
@@ -515,6 +527,7 @@ def run_scenario(sc, workdir):
         instrument(d, stack, events, block)
         # the configuration the user gave (model/Secrets.v [conf]): what repr() / str() of the driver may show, at ANY
         # point of its life cycle, is decided from this — taken before the first operation
+        # — and, for an attribute the user REASSIGNS on the existing driver (op `set_attr`), from the value assigned
         cdesc = {"host": str(d.host), "user": str(d.auth_username), "key": str(d.auth_private_key), "rest": repr(pristine),
                  "pw": kw.get("auth_password", ""), "ph": kw.get("auth_private_key_passphrase", ""),
                  "sec2": kw.get("auth_secondary", "")}
@@ -524,8 +537,8 @@ def run_scenario(sc, workdir):
             shown_r, shown_s = repr(d), str(d)
             obs["reprs"].append(("repr" + tag, shown_r))
             obs["reprs"].append(("str" + tag, shown_s))
-            events.append(("drv_probe", "repr", cdesc, shown_r))
-            events.append(("drv_probe", "str", cdesc, shown_s))
+            events.append(("drv_probe", "repr", dict(cdesc), shown_r))
+            events.append(("drv_probe", "str", dict(cdesc), shown_s))
             if user_opts is not None:
                 obs["reprs"].append(("user_transport_options" + tag, repr(user_opts)))
             openers = [x for x in done if x.startswith(("open", "transport_open", "login_"))]
@@ -612,8 +625,37 @@ def run_scenario(sc, workdir):
                     res = r.call(d.send_commands, list(op[1]), **kw2)
                     obs["results"].append(res.result)
                     probe_response(res, False, op[3] if len(op) > 3 else None)
+                elif name == "set_attr":
+                    # the user assigns an attribute of the EXISTING driver object (credential rotation, another
+                    # password after a refused login, a secret fetched after the inventory built the drivers)
+                    events.append(("op_begin", "set_attr", (op[1], op[2]), {}))
+                    try:
+                        setattr(d, op[1], op[2])
+                    except BaseException as e:
+                        events.append(("op_end", "set_attr", _exc_name(e), str(e) if isinstance(e, Exception) else ""))
+                        raise
+                    events.append(("op_end", "set_attr", None, "", None))
+                    if op[1] in SET_ATTR_CONF:
+                        cdesc[SET_ATTR_CONF[op[1]]] = str(op[2])
+                    if op[1] in pristine:
+                        pristine[op[1]] = op[2]
+                        cdesc["rest"] = repr(pristine)
+                    obs.setdefault("assigned", []).append([op[1], getattr(d, op[1]) == op[2]])
+                elif name == "reconnect":
+                    # the next open() of the same driver object reaches a NEW session of the device (op[1]: what has
+                    # changed at the device meanwhile, e.g. the password it accepts)
+                    dev, inner = make_device(dict(sc, device=dict(sc["device"], **(op[1] if len(op) > 1 else {}))))
+                    dev.start()
+                    devices.append((dev, inner))
+                    if sc.get("libauth"):
+                        raise ValueError("reconnect: not available for the library-authentication endpoints")
+                    if sc.get("transport"):
+                        from .c12_rt import reconnect
+                        reconnect(d, sc["transport"], dev, tuple(sc.get("policy", ["whole"])))
+                    else:
+                        d.transport._init(dev, tuple(sc.get("policy", ["whole"])), None)
                 elif name == "send_interactive":
-                    evs = [tuple(e) for e in op[1]]
+                    evs = decode_events(op[1])
                     kw2 = {}
                     if len(op) > 2 and op[2] is not None:
                         kw2["interaction_complete_patterns"] = list(op[2])
@@ -621,7 +663,7 @@ def run_scenario(sc, workdir):
                         kw2["failed_when_contains"] = list(op[3])
                     res = r.call(d.send_interactive, evs, **kw2)
                     obs["results"].append(res.result)
-                    probe_response(res, any(len(e) > 2 and e[2] for e in evs), op[4] if len(op) > 4 else None)
+                    probe_response(res, any(event_hidden(e) for e in evs), op[4] if len(op) > 4 else None)
                 elif name == "acquire_priv":
                     r.call(d.acquire_priv, op[1])
                 elif name == "get_prompt":
@@ -668,10 +710,34 @@ def run_scenario(sc, workdir):
         wctx.__exit__(None, None, None)
     obs["events"] = events
     obs["files"] = {k: open(p, "rb").read().decode("latin-1") for k, p in files.items()}
-    obs["device_log"] = [(m, bytes(l), bytes(o)) for (m, l, o) in inner.log]
-    obs["hidden_lines"] = [bytes(x) for x in getattr(dev, "hidden_lines", [])] + [bytes(x) for x in inner.hidden_lines]
+    obs["device_log"] = [(m, bytes(l), bytes(o)) for (_dv, inn) in devices for (m, l, o) in inn.log]
+    obs["hidden_lines"] = [bytes(x) for (dv, inn) in devices
+                           for x in (list(getattr(dv, "hidden_lines", [])) if dv is not inn else []) + list(inn.hidden_lines)]
     obs["channel_log"] = chanlog.getvalue()
     return obs
+
+
+# attributes of the driver whose reassignment changes the model's conf record (what repr() / str() may show)
+SET_ATTR_CONF = {"auth_username": "user", "auth_password": "pw", "auth_private_key_passphrase": "ph", "auth_secondary": "sec2"}
+
+
+def decode_events(spec):
+    """interact events of a scenario (JSON) -> what the user hands to send_interactive.  An event written as a list is a
+    tuple (the documented shape), `{"list": [...]}` an event that IS a list; `{"tuple": [events]}` around all of them:
+    the events handed over as a tuple instead of a list.  Elements are whatever the scenario says (None, numbers,
+    lists, more or fewer than three of them): the malformed shapes are scenarios too."""
+    whole_tuple = isinstance(spec, dict)
+    if whole_tuple:
+        spec = spec["tuple"]
+    evs = [list(e["list"]) if isinstance(e, dict) else tuple(e) for e in spec]
+    return tuple(evs) if whole_tuple else evs
+
+
+def event_hidden(e):
+    try:
+        return bool(e[2])
+    except Exception:  # noqa  (shorter than three elements / not indexable: not marked hidden)
+        return False
 
 
 class _Endpoint:
@@ -918,19 +984,32 @@ def build_case(label, a, kw, evs, exc, exc_text, items, sc):
             return None
         evt = []
         for e in evl:
+            # unusual shapes the code accepts are modelled as what it reads of them: elements 0..2 of a tuple OR list,
+            # anything after them ignored, an expected response of None / "" = "read to the prompt" (e_resp_ne false)
+            if not isinstance(e, (tuple, list)) or len(e) < 2 or not isinstance(e[0], str) or not (e[1] is None or isinstance(e[1], str)):
+                return None     # the code fails on this event with a python error: outside the model (oracle-only)
             hidden = bool(e[2]) if len(e) > 2 else False
             if len(e) > 2 and type(e[2]) is not bool:
                 return None     # `hidden_input is not True` differs from truthiness there: outside the model
-            evt.append("(mkEv %s %s %s %s %s)" % (coq_msg(P(e[0])), coq_msg(P(e[1])), coq_bool(hidden),
-                                                  coq_bool(e[0] != ""), coq_bool(e[1] != "")))
+            evt.append("(mkEv %s %s %s %s %s)" % (coq_msg(P(e[0])), coq_msg(P(e[1] or "")), coq_bool(hidden),
+                                                  coq_bool(e[0] != ""), coq_bool(bool(e[1]))))
         opt = "(OpInteract %s %s)" % (coq_bool(bool(pats)), coq_list(evt))
     elif label == "_escalate":
         priv = arg("escalate_priv", 0)
         if not getattr(priv, "escalate_auth", False):
             return None
         s2 = sc.get("driver_kwargs", {}).get("auth_secondary", "")
+        for ev in evs:
+            if ev[0] == "attr_now" and ev[1] == "auth_secondary":
+                s2 = ev[2]      # what the driver holds at this point of the history (reassigned or not)
+                break
         opt = "(OpEscalate %s %s %s %s [] [] %s)" % (coq_msg(P(priv.escalate)), coq_msg(P(priv.escalate_prompt)),
                                                      coq_msg(P(s2)), coq_msg(P(priv.pattern)), coq_bool(s2 != ""))
+    elif label == "set_attr":
+        # `driver.X = v`: credentials are plain stores (nothing observable), the public tunables' setters log the value
+        if not isinstance(a[1], str):
+            return None
+        opt = "(OpAssign %s %s)" % (coq_bool(a[0] in CREDENTIAL_KWARGS), coq_msg(P(a[1])))
     elif label == "channel_authenticate_telnet":
         opt = "(OpLoginTelnet %s %s)" % (coq_msg(P(arg("auth_username", 0, ""))), coq_msg(P(arg("auth_password", 1, ""))))
     elif label == "channel_authenticate_ssh":
@@ -1365,6 +1444,171 @@ def gen_topts(rng):
     tname = rng.choice(["asyncssh", "asyncssh", "paramiko", "system", "telnet"])
     return sc_topts(rng, tname, rng.choice(["good", "good", "bad"]), dialogue=rng.random() < 0.3)
 
+# ------------------------------------------------------------------------------------------------
+# credentials REASSIGNED on an existing driver (family rotate) and unusual shapes of interact events (family shape)
+# ------------------------------------------------------------------------------------------------
+ROTATE_MODES = ["before-open", "after-refused", "between-opens", "secondary-after-open", "junos-root", "system-phrase",
+                "system-refused"]
+
+
+def sc_rotate(rng, stack, mode, kind=None):
+    """the user assigns EVERY secret-bearing attribute (auth_password, auth_private_key_passphrase, auth_secondary; the
+    user name as well) of an EXISTING driver object — before the first open, after an open() the device refused, between
+    two opens (the device's credentials were rotated), between open() and acquire_priv() — and goes on using the driver;
+    the device only accepts the NEW values where the scenario says so, so the assignment is what the login types.
+      before-open / after-refused / between-opens: in-channel telnet login + enable escalation inside open()
+      secondary-after-open: open() stays in exec, auth_secondary assigned, acquire_priv('privilege_exec')
+      junos-root: auth_secondary assigned after open(), acquire_priv('root_shell')
+      system-phrase / system-refused: the REAL system transport plugin (fake pty): ssh passphrase + password dialogue"""
+    old = {"auth_password": canary(rng, "P"), "auth_private_key_passphrase": canary(rng, "K"), "auth_secondary": canary(rng, "E")}
+    new = {"auth_password": canary(rng, "Q"), "auth_private_key_passphrase": canary(rng, "L"), "auth_secondary": canary(rng, "F")}
+    u_old, u_new = "lab%d" % rng.randrange(100), "ops%d" % rng.randrange(100)
+    cmd, out = "show okra%d" % rng.randrange(100), "OUT-leek%d" % rng.randrange(1000)
+    kind = kind or rng.choice(RT_KINDS[1:])
+    secrets = {"password": old["auth_password"], "passphrase": old["auth_private_key_passphrase"], "secondary": old["auth_secondary"],
+               "password_new": new["auth_password"], "passphrase_new": new["auth_private_key_passphrase"],
+               "secondary_new": new["auth_secondary"]}
+    dkw = dict(old, auth_username=u_old)
+    sets = [["set_attr", k, v] for k, v in new.items()] + [["set_attr", "auth_username", u_new]]
+    rng.shuffle(sets)
+    use = [["send_command", cmd, rng.choice([None, ["OUT-"]])], ["repr"], ["close"]]
+    sc = {"family": "rotate", "mode": mode, "kind": kind, "stack": stack, "policy": ["whole"], "outputs": {cmd: out},
+          "publics": [cmd, out, u_old, u_new, "enable"], "timeout": False, "fault": None, "stop_on_error": False}
+    expect = ["auth_password", "auth_secondary"]
+    if mode in ("before-open", "after-refused", "between-opens"):
+        dkw.update(auth_bypass=False, timeout_ops=120)      # see sc_login_telnet
+        dv = {"platform": dev_platform(kind), "login_mode": "exec", "front": "telnet", "ask_user": True,
+              "user": u_new, "password": new["auth_password"], "enable_secret": new["auth_secondary"]}
+        if stack == "sync":
+            sc["policy"] = gen_policy(rng)
+        if mode == "before-open":
+            ops = [["repr"]] + sets + [["repr"], ["open"]] + use
+        elif mode == "after-refused":
+            # the device knows the user; the first password is refused; the user puts the right one on the same driver
+            # and opens it again (no close() in between: a network driver's on_close talks to the device first)
+            dv["user"] = u_old
+            sets = [x for x in sets if x[1] != "auth_username"]
+            ops = [["open"]] + sets + [["reconnect"], ["open"]] + use
+        else:
+            dv.update(user=u_old, password=old["auth_password"], enable_secret=old["auth_secondary"])
+            ops = [["open"], ["send_command", cmd], ["close"]] + sets + \
+                  [["reconnect", {"user": u_new, "password": new["auth_password"], "enable_secret": new["auth_secondary"]}], ["open"]] + use
+    elif mode == "secondary-after-open":
+        dkw["default_desired_privilege_level"] = "exec"
+        dv = {"platform": dev_platform(kind), "login_mode": "exec", "enable_secret": new["auth_secondary"]}
+        sc["policy"] = gen_policy(rng)
+        ops = [["open"], ["repr"]] + sets + [["acquire_priv", "privilege_exec"]] + use
+        expect = ["auth_secondary"]
+    elif mode == "junos-root":
+        sc["kind"] = kind = "juniper_junos"
+        dv = {"platform": "juniper_junos", "enable_secret": new["auth_secondary"]}
+        sc["policy"] = gen_policy(rng)
+        sc["publics"].append("start shell user root")
+        ops = [["open"]] + sets + [["acquire_priv", "root_shell"], ["repr"], ["close"]]
+        expect = ["auth_secondary"]
+    elif mode in ("system-phrase", "system-refused"):
+        if stack != "sync":
+            raise ValueError("the system transport is sync only")
+        sc["transport"] = "system"
+        dv = {"platform": dev_platform(kind), "login_mode": "exec", "front": "ssh", "password": new["auth_password"],
+              "passphrase": new["auth_private_key_passphrase"], "enable_secret": new["auth_secondary"]}
+        if mode == "system-phrase":
+            ops = sets + [["repr"], ["open"]] + use
+            expect = ["auth_private_key_passphrase", "auth_secondary"]
+        else:
+            # wrong passphrase (twice), then the wrong password until ssh gives up; new values on the same driver
+            ops = [["open"]] + sets + [["reconnect"], ["open"]] + use
+            expect = ["auth_private_key_passphrase", "auth_secondary"]
+    else:
+        raise ValueError("unknown rotate mode %r" % (mode,))
+    sc.update(device=dv, driver_kwargs=dkw, secrets=secrets, ops=ops, expect_typed=[new[k] for k in expect])
+    return sc
+
+
+def corpus_rotate(rng):
+    out = []
+    for stack in ("sync", "async"):
+        out.append(sc_rotate(rng, stack, "secondary-after-open"))
+        out.append(sc_rotate(rng, stack, "junos-root"))
+    for mode in ("before-open", "before-open", "after-refused", "between-opens", "system-phrase", "system-refused"):
+        out.append(sc_rotate(rng, "sync", mode))
+    # the asyncio telnet login sleeps per loop iteration: one of them here, more in the thorough tier's stream
+    out.append(sc_rotate(rng, "async", "before-open"))
+    return out
+
+
+def gen_rotate(rng, thorough=False):
+    mode = rng.choice(ROTATE_MODES)
+    stack = "sync"
+    if not mode.startswith("system") and rng.random() < (0.3 if thorough or mode in ("secondary-after-open", "junos-root") else 0.0):
+        stack = "async"
+    return sc_rotate(rng, stack, mode)
+
+
+# what the unchanged tree does with the shape: accepted = the interaction runs (the hidden input is typed at the password
+# prompt), rejected = a python / scrapli error, before or in the middle of the interaction
+EVENT_SHAPES = {"resp-none": "accepted", "resp-empty": "accepted", "list-event": "accepted", "four-tuple": "accepted",
+                "four-list": "accepted", "all-lists": "accepted", "resp-int": "rejected", "resp-list": "rejected",
+                "short-first": "rejected", "events-tuple": "rejected", "input-list": "rejected"}
+
+
+def sc_shape(rng, stack, shape, with_complete=None):
+    """send_interactive with a hidden event of an unusual shape (generic driver at the exec prompt, the device asks for
+    its enable password): shapes the code accepts (expected response None / "", an event that is a list, four elements)
+    and shapes it rejects (a response that is not a string, a too short event before the hidden one, the events handed
+    over as a tuple, the hidden input wrapped in a list).  Oracle as everywhere: no exception message / log record / repr
+    shows the hidden input — an argument check that quotes what it rejects is a leak."""
+    if with_complete is None:
+        with_complete = rng.random() < 0.5
+    sc = sc_interact(rng, stack, "good", with_complete)
+    hid = sc["secrets"]["hidden"]
+    note = "note%d" % rng.randrange(100)
+    first, second, whole = ["enable", "Password:", False], [hid, "router1#", True], None
+    if shape == "resp-none":
+        second = [hid, None, True]
+    elif shape == "resp-empty":
+        second = [hid, "", True]
+    elif shape == "list-event":
+        second = {"list": [hid, "router1#", True]}
+    elif shape == "four-tuple":
+        second = [hid, "router1#", True, note]
+    elif shape == "four-list":
+        second = {"list": [hid, "router1#", True, None]}
+    elif shape == "all-lists":
+        first, second = {"list": first}, {"list": [hid, "router1#", True, note, 7]}
+    elif shape == "resp-int":
+        second = [hid, rng.randrange(2, 99), True]
+    elif shape == "resp-list":
+        second = [hid, ["router1#", "router1>"], True]
+    elif shape == "short-first":
+        first = ["enable"]
+    elif shape == "events-tuple":
+        whole = True
+    elif shape == "input-list":
+        second = [[hid], "router1#", True]
+    else:
+        raise ValueError("unknown event shape %r" % (shape,))
+    evs = [first, second]
+    op = sc["ops"][1]
+    op[1] = {"tuple": evs} if whole else evs
+    op[3] = rng.choice([None, ["Password"]])
+    sc.update(family="shape", mode=shape + ("+complete" if with_complete else ""), stop_on_error=False,
+              publics=sc["publics"] + [note], expect_shape=EVENT_SHAPES[shape])
+    return sc
+
+
+def corpus_shape(rng):
+    out = []
+    for i, shape in enumerate(sorted(EVENT_SHAPES)):
+        out.append(sc_shape(rng, "sync", shape))
+        if i % 2 == 0 or EVENT_SHAPES[shape] == "accepted":
+            out.append(sc_shape(rng, "async", shape))
+    return out
+
+
+def gen_shape(rng):
+    return sc_shape(rng, rng.choice(["sync", "sync", "async"]), rng.choice(sorted(EVENT_SHAPES)))
+
 
 def rt_faults(rng, sc, obs, every):
     """the same dialogue with the endpoint dead at one of its writes: at EVERY write that carries a secret, and at
@@ -1580,6 +1824,10 @@ def run(rep):
     # drivers constructed with transport_options: own stream again (derived last)
     trng = random.Random(lrng.getrandbits(64))
     scenarios += corpus_topts(trng) + [gen_topts(trng) for _ in range(300 if thorough else 10)]
+    # credentials reassigned on an existing driver; interact events of unusual shapes: own stream (derived last)
+    xrng = random.Random(trng.getrandbits(64))
+    scenarios += corpus_rotate(xrng) + [gen_rotate(xrng, thorough) for _ in range(300 if thorough else 8)]
+    scenarios += corpus_shape(xrng) + [gen_shape(xrng) for _ in range(300 if thorough else 8)]
     # replays of listed findings run first
     for f in rep.findings:
         p = os.path.join(common.VERIF, f.get("replay", ""))
@@ -1591,7 +1839,7 @@ def run(rep):
     dist = {"family": {}, "mode": {}, "stack": {}, "kind": {}, "policy": {}, "exception": {}, "ops_modelled": {},
             "secret_len": {}, "metachar_secrets": 0, "writes_redacted": 0, "writes_shown": 0, "flag_hits": {},
             "responses": {}, "response_probes": {}, "write_faults": {}, "real_transport": {}, "library_auth": {},
-            "transport_options": {}, "driver_repr_at": {}}
+            "transport_options": {}, "driver_repr_at": {}, "reassigned": {}, "rotate": {}, "event_shapes": {}}
     terms, term_src = [], []
     resp_terms = set()
     nviol = 0
@@ -1621,6 +1869,23 @@ def run(rep):
             dist["transport_options"][key] = dist["transport_options"].get(key, 0) + 1
         for pt in obs.get("repr_points", []):
             dist["driver_repr_at"][pt] = dist["driver_repr_at"].get(pt, 0) + 1
+        if sc["family"] == "rotate":
+            # which attributes were reassigned, what the opens did, and whether the NEW values are what got typed
+            for (attr, took) in obs.get("assigned", []):
+                dist["reassigned"][attr] = dist["reassigned"].get(attr, 0) + 1
+            typed = [as_text(e[1]) for e in obs["events"] if e[0] == "twrite"]
+            missing = [v for v in sc.get("expect_typed", []) if not any(occurs(v, t) for t in typed)]
+            key = "%s %s -> %s%s" % (sc["mode"], sc["stack"], ",".join(e["chain"][0]["cls"] + "@" + e["where"] for e in obs["exceptions"]) or "no exception",
+                                     "" if not missing else " (reassigned value NOT typed)")
+            dist["rotate"][key] = dist["rotate"].get(key, 0) + 1
+            if missing and not sc.get("finding"):
+                rep.broken.append("harness: rotate scenario %d (%s %s %s): a reassigned credential was never typed at the device" % (
+                    si, sc["mode"], sc["kind"], sc["stack"]))
+        if sc["family"] == "shape":
+            # what the code did with the shape (against what the unchanged tree does with it)
+            excs = [e["chain"][0]["cls"] for e in obs["exceptions"] if e["where"] == "send_interactive"]
+            key = "%s %s: %s (unchanged tree: %s)" % (sc["mode"].split("+")[0], sc["stack"], excs[0] if excs else "accepted", sc.get("expect_shape"))
+            dist["event_shapes"][key] = dist["event_shapes"].get(key, 0) + 1
         if sc["family"] == "libauth":
             # which authentication outcome, how it reached the user, and whether the password crossed to the server side
             la = sc["libauth"]
@@ -1720,7 +1985,11 @@ def run(rep):
                 "through open() and the context manager: fakes of the library objects and in-process loopback ssh servers; drivers "
                 "constructed with transport_options={...} on asyncssh / paramiko (real open()), system (real _build_open_cmd), telnet, "
                 "asynctelnet: repr()/str() of the driver and the user's own option dict before open, after a successful / rejected "
-                "open and after close) + seeded scenarios + "
+                "open and after close; credentials REASSIGNED on an existing driver object — auth_password, auth_private_key_passphrase, "
+                "auth_secondary, auth_username assigned before the first open, after a refused open, between two opens, between open "
+                "and acquire_priv, over the scripted telnet login and the real system plugin, the device accepting only the new values; "
+                "send_interactive with hidden events of unusual shapes, accepted (response None / '', list events, extra elements) and "
+                "rejected (non-string response, short event, events as a tuple, input in a list)) + seeded scenarios + "
                 "a malformed stream (all-metacharacter / very long / format-looking secrets, truthy non-bool hidden flag); "
                 "every Response / MultiResponse handed to the user is probed with str(), raise_for_status() and (no hidden input) repr(); "
                 "every repr()/str() of a driver is one model case (OpRepr / OpStr of the configuration given at construction); "
@@ -1832,7 +2101,17 @@ MANIFEST = {
             "asynctelnet; options of another transport riding along): repr() and str() of the driver AND the option dict the user "
             "handed in (same object repr(driver) prints) before open(), after a successful open(), after an open() the server / device "
             "rejected, after close(); every repr()/str() of a driver in any scenario is compared with the model's OpRepr / OpStr of "
-            "the configuration given at construction (the atoms shown may not change over the life cycle).",
+            "the configuration given at construction (the atoms shown may not change over the life cycle). Credentials REASSIGNED on an "
+            "existing driver object (`conn.auth_password = ...`, auth_private_key_passphrase, auth_secondary, auth_username; every "
+            "order) before the first open(), after an open() the device refused, between two opens with the device's credentials rotated, "
+            "between open() and acquire_priv() (enable, junos root shell), over the scripted telnet login and the real system plugin's "
+            "passphrase / password dialogue, sync and asyncio: the device accepts only the new values (the check fails closed when a "
+            "reassigned value is not what gets typed), old and new values are canaries for every observer, each assignment is a model "
+            "case (OpAssign); the sink table follows attribute-assignment hooks: the value parameter of a property setter stands for "
+            "the attribute it sets, the one of a __setattr__ for every attribute of the class family. send_interactive with a hidden "
+            "event of an unusual shape: accepted by the code (expected response None / '', the event a list, extra elements) and "
+            "rejected by it (non-string response, too short event before the hidden one, events handed over as a tuple, input "
+            "wrapped in a list) — no exception message (python errors included), log record or repr may quote the hidden input.",
     "note": "Trusted: Coq kernel + vm_compute; the hand model coq/model/Secrets.v (tied to the code by running every channel operation "
             "of every scenario through the model on the history observed at the transport: same write records REDACTED-or-shown, reads, "
             "channel log, exception class; other records compared as sets of data items); gen/gen_sinks.py (identifier-level value flow "
@@ -1853,7 +2132,15 @@ MANIFEST = {
             "ParamikoTransport enable_rsa2) has no Coq model: that nothing is stored into the printed dict is the SStore rows of the "
             "sink table (syntactic alias approximation: names not objects, copies / literals / other calls break the alias) plus the "
             "canary oracle on the topts scenarios, where the user's dict is also scanned directly; the system plugin's open() is "
-            "still a stub (it runs the real _build_open_cmd, then attaches the fake pty). ORACLE-ONLY (no Coq model, covered by the sink table + the canary oracle): "
+            "still a stub (it runs the real _build_open_cmd, then attaches the fake pty). Reassigned credentials: the model has no "
+            "driver state — OpAssign cred v is `nothing observable` for the three credential attributes (plain stores) and `a record "
+            "with the value` for a public tunable with a logging setter; the operations that follow are model cases parametrised by "
+            "the values the real driver holds then (login arguments observed at the call, OpEscalate's secret read from the driver at "
+            "each _escalate, the conf record of OpRepr / OpStr updated by the assignment); `reconnect` (a fresh device session behind "
+            "the same driver / transport object for the next open()) is a harness step, not an operation of scrapli. Interact events "
+            "of unusual shapes: the accepted ones are model cases as what the code reads of them (elements 0..2, response None / '' = "
+            "read to the prompt), the REJECTED ones (python errors in the middle of the interaction, ScrapliTypeError for a "
+            "non-list) are oracle-only; descriptor classes with __set__ are not followed by the sink table. ORACLE-ONLY (no Coq model, covered by the sink table + the canary oracle): "
             "Response.textfsm_parse_output and every run with a failing transport write (model cases stop at a twrite exception); the real "
             "transport plugins are driven through fake endpoints (harness/c12_rt.py: open() replaced on the instance, the library "
             "authentication of paramiko / asyncssh / ssh2 is not run there; ssh2 is skipped when not installed). ORACLE-ONLY as well: the "
